@@ -170,5 +170,84 @@ Definition select_item_alias (lower : str -> str) (prefix : str) (reserved used 
 Definition code_col_reserved (repaired : bool) (lower : str -> str) (rq_columns : list str) : list str :=
   if repaired then reserved_of lower rq_columns else [].
 
+(* ---------------------------------------------------------------- which names reach the column-name places
+   The anchor context holds column names in column_names (CId -> name) and column_decls (RelationColumn(.., Single name)).
+   Names get there in four ways (sql/pq/context.rs, anchor.rs, gen_expr.rs):
+     QueryLoader / create_relation_instance / load_names   names of the RQ: columns of a table reference, declared columns of
+                                                            a relation (exactly the names QueryLoader reserves, lower-cased)  OpLoad
+     ensure_column_name                                     the result of the call                                            OpEnsure
+     anchor_split                                           the new names of the split (column_names of the new cids, columns
+                                                            of the new relation instance)                                     OpSplit
+     translate_select_item                                  the invented alias                                                OpAlias
+   `known` is the list of all names the context holds.  An operation mentions only names the context already holds
+   (`before`, declared names: op_wf) -- that is what the hook events show of the real compilation. *)
+Definition is_gen (p u : str) : bool :=
+  match strip_prefix p u with Some ds => leqb u (gen_name p (base_value 10 ds)) | None => false end.
+
+(* a name of the RQ (its lower-cased form is reserved) or a generated name *)
+Definition name_class_ok (lower : str -> str) (p : str) (reserved : list str) (u : str) : bool :=
+  mem_str (lower u) reserved || is_gen p u.
+
+Definition col_incoming (c : cdecl * option str) : list str :=
+  (match snd c with Some b => [b] | None => [] end) ++ (match fst c with DSingle (Some nm) => [nm] | _ => [] end).
+
+(* the hypothesis of the case-insensitive theorem, decidable: evaluated on every real anchor_split call *)
+Definition incoming_ok (lower : str -> str) (p : str) (reserved : list str) (cols : list (cdecl * option str)) : bool :=
+  forallb (name_class_ok lower p reserved) (flat_map col_incoming cols).
+
+Inductive colop :=
+  | OpLoad (names : list str)
+  | OpEnsure (d : cdecl) (before : option str)
+  | OpSplit (cols : list (cdecl * option str))
+  | OpAlias.
+
+Definition op_wf (lower : str -> str) (reserved known : list str) (op : colop) : bool :=
+  match op with
+  | OpLoad names => forallb (fun u => mem_str (lower u) reserved) names
+  | OpEnsure d b => forallb (fun u => mem_str u known) (col_incoming (d, b))
+  | OpSplit cols => forallb (fun u => mem_str u known) (flat_map col_incoming cols)
+  | OpAlias => true
+  end.
+
+(* one operation: the new list of known names, the new counter, and the names of the split if it was one *)
+Definition run_op (lower : str -> str) (p : str) (reserved known : list str) (n : N) (op : colop)
+  : option (list str * N * list (list (option str))) :=
+  if op_wf lower reserved known op then
+    match op with
+    | OpLoad names => Some (names ++ known, n, [])
+    | OpEnsure d b =>
+        match ensure_column_name lower p reserved d b n with
+        | Some (Some x, n') => Some (x :: known, n', [])
+        | Some (None, n') => Some (known, n', [])
+        | None => None
+        end
+    | OpSplit cols =>
+        match split_names lower p reserved cols [] n with
+        | Some (l, n') => Some (somes l ++ known, n', [l])
+        | None => None
+        end
+    | OpAlias =>
+        match select_item_alias lower p reserved known n with
+        | Some (x, n') => Some (x :: known, n', [])
+        | None => None
+        end
+    end
+  else None.
+
+Fixpoint run_ops (lower : str -> str) (p : str) (reserved known : list str) (n : N) (ops : list colop)
+  : option (list str * N * list (list (option str))) :=
+  match ops with
+  | [] => Some (known, n, [])
+  | op :: r =>
+      match run_op lower p reserved known n op with
+      | None => None
+      | Some (known1, n1, s1) =>
+          match run_ops lower p reserved known1 n1 r with
+          | Some (known2, n2, s2) => Some (known2, n2, s1 ++ s2)
+          | None => None
+          end
+      end
+  end.
+
 (* is_ascii for the statement that relates Unicode lower-casing to the ASCII case folding of SQLite *)
 Definition ascii_only (s : str) : bool := forallb (fun c => c <? 128) s.
